@@ -254,6 +254,12 @@ func c13(ctx *Ctx) (*Outcome, error) {
 				return &sg.Schema{Types: []string{"object"}, Props: []sg.Prop{{Name: "street", S: &sg.Schema{Types: []string{"string"}}}, {Name: "country", S: &sg.Schema{Ref: "#/$defs/DupLeaf", Target: leaf}}}, Required: []string{"street"}}
 			}
 			d1, d2 := mk(), mk()
+			if i%4 == 3 {
+				// identifiers on nested subschemas (the style of some schema editors: every node names its own
+				// location), different on the two equal definitions: "$id" and "id" spell the same thing
+				d1.ID, d2.ID = "#/definitions/DupAddr", "#/definitions/dupAddr"
+				d1.Props[0].S.ID = "#/definitions/DupAddr/properties/city"
+			}
 			root.Defs = append(root.Defs, sg.Prop{Name: "DupLeaf", S: leaf}, sg.Prop{Name: "DupAddr", S: d1}, sg.Prop{Name: "dupAddr", S: d2})
 			root.Props = append(root.Props, sg.Prop{Name: "office", S: &sg.Schema{Ref: "#/$defs/DupAddr", Target: d1}}, sg.Prop{Name: "home", S: &sg.Schema{Ref: "#/$defs/dupAddr", Target: d2}})
 		}
